@@ -175,7 +175,7 @@ Proof.
     match goal with |- context [(?a =? w) && (?b =? pid)] => destruct ((a =? w) && (b =? pid)); [discriminate|reflexivity] end.
 Qed.
 
-Lemma share_step w pid j s st x r sh oc0 rw0 :
+Lemma share_step_core w pid j s st x r sh oc0 rw0 :
   inv s -> valid_step st -> rule_j pid j s = Some r -> sim w pid j s x -> Rsh sh x ->
   Rsh (step_spec (obs_of s oc0 rw0) st (obs_after s st) (w, pid, r_denom r) sh)
       (fold_left fstep' (events_of_step w pid j s st) x).
@@ -228,4 +228,162 @@ Proof.
       { rewrite (Z.eqb_sym w w0), (Z.eqb_sym pid pid0) in Ewp. rewrite Ewp in Hpa. exact Hpa. }
       rewrite Ea in Hp, Hn. unfold Rsh. assert (a_paid x' = a_paid x /\ a_n x' = a_n x) as [-> ->] by lia. repeat split; try assumption; lia.
   - rewrite Hpa in Hp, Hn. unfold Rsh. assert (a_paid x' = a_paid x /\ a_n x' = a_n x) as [-> ->] by lia. repeat split; try assumption; lia.
+Qed.
+
+(** a farmer who never interacted: nothing paid, nothing accrued *)
+Definition Rz (sh : share) (x : fstate) : Prop :=
+  a_n x = 0 -> a_paid x = 0 /\ a_fair x = 0 /\ sh_eps sh = 0 /\ a_l x = 0.
+
+Lemma eps_untouched a st b w pid d sh pa :
+  get pid (o_pools a) = Some pa -> get w (p_farmers pa) = None ->
+  sh_eps (step_spec a st b (w, pid, d) sh) = sh_eps sh.
+Proof.
+  intros Hg Hf. unfold step_spec. cbv zeta.
+  assert (acc_spec a b (w, pid, d) sh = sh) as ->.
+  { unfold acc_spec. rewrite Hg.
+    repeat match goal with |- context [match ?c with _ => _ end] => destruct c eqn:? end; try reflexivity. all: unfold acct in *; congruence. }
+  destruct (negb (o_code b =? 0)); [reflexivity|]. destruct (farmer_op st) as [[w0 pid0]|]; [|reflexivity].
+  unfold pay_spec. destruct ((w =? w0) && (pid =? pid0)); [|reflexivity].
+  destruct (get pid0 (o_pools b)); [|reflexivity]. destruct (find _ (p_rules p)); reflexivity.
+Qed.
+
+Lemma share_step_zero w pid j s st x r sh oc0 rw0 :
+  inv s -> valid_step st -> rule_j pid j s = Some r -> sim w pid j s x -> finv x -> Rz sh x ->
+  Rz (step_spec (obs_of s oc0 rw0) st (obs_after s st) (w, pid, r_denom r) sh)
+     (fold_left fstep' (events_of_step w pid j s st) x).
+Proof.
+  intros I Hv Hr Hs Fx Rzx Hn0.
+  destruct (sim_step w pid j s st x r I Hv Hr Hs) as (_ & Hs' & Hp & Hf & Hn & _). cbv zeta in Hs', Hp, Hf, Hn.
+  set (x' := fold_left fstep' (events_of_step w pid j s st) x) in *.
+  pose proof (fi_n _ Fx) as Hnx. pose proof (acts_in_nonneg w pid s st) as Hai.
+  assert (a_n x = 0 /\ acts_in w pid s st = 0) as [Hnx0 Hai0] by lia.
+  destruct (Rzx Hnx0) as (Z1 & Z2 & Z3 & Z4).
+  destruct Hs as (Sr & Sl & SD). rewrite Z4 in Sl.
+  unfold rule_j in Hr. destruct (get pid (pools s)) as [pa|] eqn:Hg; [|discriminate].
+  pose proof (get_pool_inv _ _ _ I Hg) as PI.
+  assert (get w (p_farmers pa) = None) as Hnone.
+  { destruct (get w (p_farmers pa)) as [f|] eqn:Ef; [|reflexivity]. exfalso.
+    pose proof (Forall_vals_get _ _ _ _ (pi_pos _ _ PI) Ef) as Hpos. cbv beta in Hpos.
+    unfold l_of, rec_of in Sl. rewrite Hg, Ef in Sl. lia. }
+  assert (paid_in w pid j s st = 0) as Hpi0.
+  { unfold paid_in. unfold acts_in in Hai0. destruct (act_of w pid st); [|reflexivity]. destruct (ok_step s st); [lia|reflexivity]. }
+  split; [lia|]. split; [unfold fair_in in Hf; rewrite <- Sl in Hf; lia|]. split.
+  - rewrite (eps_untouched _ _ _ _ _ _ _ pa); [exact Z3|exact Hg|exact Hnone].
+  - destruct Hs' as (_ & Sl' & _). rewrite Sl'.
+    destruct (farmer_view w pid s st pa I Hv Hg) as (pb & Hgb & _ & Hview).
+    assert (get w (p_farmers pb) = get w (p_farmers pa)) as Hsame.
+    { unfold acts_in in Hai0. destruct (act_of w pid st); [destruct (ok_step s st); [lia|exact Hview]|exact Hview]. }
+    unfold l_of, rec_of. rewrite Hgb, Hsame, Hnone. reflexivity.
+Qed.
+
+(** ** every key of the checker's map, along a model history *)
+Definition key_ok (s : state) (m : shares) (k : key) : Prop :=
+  let '(w, pid, d) := k in
+  match get pid (pools s) with
+  | None => sh_get m k = share0
+  | Some p => (~ In d (map r_denom (p_rules p)) /\ sh_get m k = share0)
+              \/ (exists j r x, nth_error (p_rules p) j = Some r /\ r_denom r = d /\ finv x /\ sim w pid j s x
+                                /\ Rsh (sh_get m k) x /\ Rz (sh_get m k) x)
+  end.
+
+Lemma find_notin rs d : ~ In d (map r_denom rs) -> find (fun r => eqb (r_denom r) d) rs = None.
+Proof.
+  induction rs as [|a rs IH]; simpl; intros Hni; [reflexivity|].
+  destruct (eqb (r_denom a) d) eqn:E; [apply (proj1 (eqb_true_iff _ _)) in E; exfalso; apply Hni; left; exact E|].
+  apply IH. intros Hi. apply Hni. right. exact Hi.
+Qed.
+
+Lemma rpsmap_denoms rs rs' : rpsmap rs' = rpsmap rs -> map r_denom rs' = map r_denom rs.
+Proof.
+  unfold rpsmap. intros H. apply (f_equal (map fst)) in H. rewrite !map_map in H. exact H.
+Qed.
+
+Lemma shape_denoms h pa pb : shape h pa pb -> map r_denom (p_rules pb) = map r_denom (p_rules pa).
+Proof.
+  intros [[_ Hr]|[_ Hr]]; apply rpsmap_denoms in Hr; [exact Hr|]. rewrite Hr, map_map. reflexivity.
+Qed.
+
+Lemma untouched_absent s st w pid d sh oc0 rw0 :
+  inv s -> get pid (pools s) = None ->
+  step_spec (obs_of s oc0 rw0) st (obs_after s st) (w, pid, d) sh = sh.
+Proof.
+  intros I Hg. unfold step_spec. cbv zeta.
+  assert (acc_spec (obs_of s oc0 rw0) (obs_after s st) (w, pid, d) sh = sh) as ->.
+  { unfold acc_spec. change (o_pools (obs_of s oc0 rw0)) with (pools s). rewrite Hg. reflexivity. }
+  destruct (negb (o_code (obs_after s st) =? 0)); [reflexivity|].
+  destruct (farmer_op st) as [[w0 pid0]|] eqn:Ef; [|reflexivity].
+  unfold pay_spec. destruct ((w =? w0) && (pid =? pid0)) eqn:E; [|reflexivity].
+  apply andb_true_iff in E. destruct E as [_ E2]. apply Z.eqb_eq in E2. subst pid0.
+  change (o_pools (obs_after s st)) with (pools (step_state s st)).
+  destruct (get pid (pools (step_state s st))) as [pb|] eqn:Hgb; [|reflexivity].
+  destruct (new_pool_lemma _ _ _ _ Hg Hgb) as (who & lpt & start & ed & rules & -> & _). discriminate.
+Qed.
+
+Lemma untouched_no_rule s st w pid d sh oc0 rw0 pa :
+  inv s -> valid_step st -> get pid (pools s) = Some pa -> ~ In d (map r_denom (p_rules pa)) ->
+  step_spec (obs_of s oc0 rw0) st (obs_after s st) (w, pid, d) sh = sh.
+Proof.
+  intros I Hv Hg Hni. destruct (shape_lemma s st pid pa I Hv Hg) as (pb & Hgb & Hshape). fold (step_state s st) in Hgb.
+  unfold step_spec. cbv zeta.
+  assert (acc_spec (obs_of s oc0 rw0) (obs_after s st) (w, pid, d) sh = sh) as ->.
+  { unfold acc_spec. change (o_pools (obs_of s oc0 rw0)) with (pools s). rewrite Hg.
+    destruct (get pid (o_pools (obs_after s st))); [|reflexivity]. rewrite (find_notin _ _ Hni). reflexivity. }
+  destruct (negb (o_code (obs_after s st) =? 0)); [reflexivity|].
+  destruct (farmer_op st) as [[w0 pid0]|]; [|reflexivity].
+  unfold pay_spec. destruct ((w =? w0) && (pid =? pid0)) eqn:E; [|reflexivity].
+  apply andb_true_iff in E. destruct E as [_ E2]. apply Z.eqb_eq in E2. subst pid0.
+  change (o_pools (obs_after s st)) with (pools (step_state s st)). rewrite Hgb.
+  rewrite find_notin; [reflexivity|]. rewrite (shape_denoms _ _ _ Hshape). exact Hni.
+Qed.
+
+Lemma share0_start : Rsh share0 (fstart 0) /\ Rz share0 (fstart 0).
+Proof.
+  split; [|intros _; simpl; auto]. unfold Rsh, share0, fstart. simpl. repeat split; try lia; unfold Qle; simpl; lia.
+Qed.
+
+Lemma key_ok_step s st m oc0 rw0 :
+  inv s -> valid_step st -> (forall k, key_ok s m k) ->
+  forall k, key_ok (step_state s st) (fair_step (obs_of s oc0 rw0) st (obs_after s st) m) k.
+Proof.
+  intros I Hv Hall [[w pid] d]. pose proof (step_inv s st I Hv) as I'.
+  assert (sh_get (fair_step (obs_of s oc0 rw0) st (obs_after s st) m) (w, pid, d)
+          = step_spec (obs_of s oc0 rw0) st (obs_after s st) (w, pid, d) (sh_get m (w, pid, d))) as Hget.
+  { apply fair_step_get.
+    - exact (i_nodup _ I).
+    - intros pid0 pa Hin. pose proof (get_pool_inv _ _ _ I (In_get _ _ _ (i_nodup _ I) Hin)) as PI.
+      split; [exact (pi_denoms _ _ PI)|exact (pi_nodup _ _ PI)].
+    - intros pid0 pb Hg. exact (pi_denoms _ _ (get_pool_inv _ _ _ I' Hg)). }
+  specialize (Hall (w, pid, d)). unfold key_ok in *. rewrite Hget.
+  destruct (get pid (pools s)) as [pa|] eqn:Hg.
+  - pose proof (get_pool_inv _ _ _ I Hg) as PI.
+    destruct (shape_lemma s st pid pa I Hv Hg) as (pb & Hgb & Hshape). fold (step_state s st) in Hgb. rewrite Hgb.
+    destruct Hall as [[Hni H0]|(j & r & x & Hnth & Hd & Fx & Hs & HR & HZ)].
+    + left. rewrite (shape_denoms _ _ _ Hshape). split; [exact Hni|].
+      rewrite (untouched_no_rule s st w pid d _ oc0 rw0 pa I Hv Hg Hni). exact H0.
+    + right. subst d.
+      assert (rule_j pid j s = Some r) as Hr by (unfold rule_j; rewrite Hg; exact Hnth).
+      destruct (sim_step w pid j s st x r I Hv Hr Hs) as ((r' & Hr') & Hs' & _ & _ & _ & Hval). cbv zeta in Hs'.
+      exists j, r', (fold_left fstep' (events_of_step w pid j s st) x).
+      unfold rule_j in Hr'. rewrite Hgb in Hr'.
+      destruct (shape_rule _ _ _ _ _ Hshape PI Hnth) as (rb & Hnb & Hdb & _). assert (r' = rb) as -> by congruence.
+      split; [exact Hnb|]. split; [exact Hdb|]. split; [apply frun'_inv; assumption|]. split; [exact Hs'|].
+      split; [exact (share_step_core w pid j s st x r _ oc0 rw0 I Hv Hr Hs HR)|exact (share_step_zero w pid j s st x r _ oc0 rw0 I Hv Hr Hs Fx HZ)].
+  - rewrite (untouched_absent s st w pid d _ oc0 rw0 I Hg), Hall.
+    destruct (get pid (pools (step_state s st))) as [pb|] eqn:Hgb; [|reflexivity].
+    destruct (in_dec Z.eq_dec d (map r_denom (p_rules pb))) as [Hin|Hni]; [right|left; auto].
+    apply in_map_iff in Hin. destruct Hin as (r & Hd & Hin). destruct (In_nth_error _ _ Hin) as [j Hnth].
+    exists j, r, (fstart 0). split; [exact Hnth|]. split; [exact Hd|]. split; [apply finv_start; lia|].
+    destruct (new_pool_lemma _ _ _ _ Hg Hgb) as (who & lpt & start & ed & rules & _ & _ & Hrs & Hlk & _).
+    pose proof (get_pool_inv _ _ _ I' Hgb) as PIb.
+    assert (get w (p_farmers pb) = None) as Hnone.
+    { destruct (get w (p_farmers pb)) as [f|] eqn:Ef; [exfalso|reflexivity].
+      pose proof (Forall_vals_get _ _ _ _ (pi_pos _ _ PIb) Ef) as Hpos. cbv beta in Hpos.
+      assert (f_locked f <= p_locked pb) as Hle; [|lia].
+      rewrite <- (pi_sum _ _ PIb), sum_locked_eq. apply (asum_get_le _ w); [|exact Ef].
+      pose proof (pi_farmers _ _ PIb) as Hfs. unfold vals in Hfs. rewrite Forall_map in Hfs.
+      eapply Forall_impl; [|exact Hfs]. simpl. intros kv [Hx _]. exact Hx. }
+    split; [|exact share0_start].
+    unfold sim, rps_of, l_of, D_of, rec_of, rule_j. rewrite Hgb, Hnth, Hnone. simpl.
+    rewrite Hrs in Hnth. unfold new_rules in Hnth. apply nth_error_In in Hnth. apply in_map_iff in Hnth.
+    destruct Hnth as ([[d0 t] pb0] & <- & _). simpl. auto.
 Qed.
